@@ -290,6 +290,43 @@ def fb_step(T, k, j):
     return implies(j >= 0, fb(T, k, j + 1) == fb(T, k, j) + k + 7 + declared_len(T, fb(T, k, j) + k))
 
 
+# ---- reassembly of segmented packets (C12) ------------------------------------------------------------------------------
+
+def tail_of(b, h):
+    """a packet without its first h bytes (h >= 0; nothing when the packet is shorter)"""
+    return sl(b, h if h <= len(b) else len(b), len(b))
+
+
+@uninterpreted(('list', 'bytes'), 'int', 'int', 'bytes')
+def tails(segs, n, h):
+    """packets 1 .. n-1 of segs, each without its first h bytes, concatenated in order"""
+    out = b''
+    for q in range(1, n):
+        out = out + bytes(segs[q])[h:]
+    return out
+
+
+@axiom
+def tails_base(segs, h):
+    return len(tails(segs, 1, h)) == 0
+
+
+@axiom
+def tails_step(segs, n, h):
+    return implies(1 <= n and n < len(segs) and h >= 0,
+                   tails(segs, n + 1, h) == cat(tails(segs, n, h), tail_of(at(segs, n), h)))
+
+
+def in_sequence(segs):
+    """consecutive sequence counts modulo 16384"""
+    return forall(lambda q: (bits(at(segs, q + 1), 18, 14) - bits(at(segs, q), 18, 14)) % 16384 == 1, 0, len(segs) - 1)
+
+
+def combined(segs, h):
+    """the whole first packet followed by every later packet without its first h bytes"""
+    return cat(at(segs, 0), tails(segs, len(segs), h))
+
+
 # ---- lemma schemas (instantiated explicitly through contract `hints`; each is checked concretely by
 # ---- pyvc/conformance.py on random arguments and stated in lean/PyVC.lean) ------------------------------------------
 
